@@ -2,7 +2,7 @@
    Statements only; proofs in Proofs/C17/*.v.  UARTSerializer_clock, UARTDeserializer_clock, ClockSyncFSM_clock, Reg_clock and the
    gate functions are REGENERATED from /repo on every run (Gen/Seq.v, Gen/Prims.v); Model/Uart.v wraps them in the cycle semantics. *)
 From V Require Import Base.Bits Gen.Seq Model.Uart Spec.C17
-  Proofs.C17.Ser Proofs.C17.SwRx Proofs.C17.Des Proofs.C17.Refute.
+  Proofs.C17.Ser Proofs.C17.SwRx Proofs.C17.Des Proofs.C17.Refute Proofs.C17.Cgr Proofs.C17.LinkBounded.
 
 (* ---- the line is 8N1.  For every byte value, every state of the READY serializer, EVERY eleven baud intervals
    (gaps g0..g10 between pulses: any phase g0, any spacing, gap 0 included — stronger than "period P >= 2"), whatever the
@@ -46,6 +46,38 @@ Theorem sw_receiver_8n1 :
     sw_rx P (map s_tx (runs ser_step (ser_ready_state cnt txv) (i0 :: ins ++ [il]))) = Some b.
 Proof. exact sw_receiver_lemma. Qed.
 
+(* ---- extensions: clock generation and recovery, universal in the half period n >= 1 (bit period P = 2n; the ClockDivider constructor
+   computes n = int(sysFreq / (2*uartFreq)), i.e. an odd ratio is truncated and the nominal bit period is 2n system clocks) *)
+
+(* the baud pulse: from power-up, whatever rx and desync do, the pulse seen at edge t is high iff t mod P = n — period exactly P *)
+Theorem tx_pulse_train :
+  forall (n : Z) (ins : list (Z * Z)), 1 <= n ->
+    cgr_pulse (final (cgr_stepi n) cgr_init ins) = if Z.of_nat (length ins) mod (2 * n) =? n then 1 else 0.
+Proof. exact tx_pulse_train_lemma. Qed.
+
+(* clock recovery: receive side idle (FSM state 0, active low), rx seen low after high at edge e.  As long as desync stays low and
+   whatever rx does afterwards, the sample wire at edge e + 1 + j is high iff j mod P = n: the k-th sample instant is at offset
+   n + 1 + k*P from the falling edge, and for n >= 2 (ratio >= 4) that is strictly inside line bit k (offsets k*P .. k*P + P - 1) *)
+Theorem recovery_phase :
+  forall (n : Z) (c : cgr) (d0 : Z) (rxs : list Z),
+    1 <= n -> cgr_bits n c -> g_fsm c = mkfsm 0 -> g_active c = 0 -> g_zrx c = 1 -> Forall isbit rxs ->
+    let c1 := cgr_step n c 0 d0 in
+    cgr_sample (final (fun c rx => cgr_step n c rx 0) c1 rxs) = (if Z.of_nat (length rxs) mod (2 * n) =? n then 1 else 0)
+    /\ (2 <= n -> forall k, 0 <= k -> k * (2 * n) < n + 1 + k * (2 * n) < (k + 1) * (2 * n)).
+Proof. exact recovery_phase_lemma. Qed.
+
+(* composition of the whole link model (serializer -> clock generation and recovery -> deserializer), PARTIAL: by exhaustive
+   evaluation for all 256 byte values and the half periods 2 <= n <= 10 (one byte) / 2 <= n <= 5 (two bytes back to back), from
+   power-up with an always-ready consumer.  The composition for every n, every byte sequence and every gap is NOT proved (it is
+   covered by the differential sweep on the real blocks); see docs/C17.md. *)
+Theorem link_delivers_partial :
+  (forall n b, 2 <= n <= 10 -> 0 <= b < 256 ->
+     link_accepted n link_init (one_byte n b) = [b] /\ link_delivered n link_init (one_byte n b) = [b]) /\
+  (forall n b, 2 <= n <= 5 -> 0 <= b < 256 ->
+     let ins := two_bytes n b (255 - b) in
+     link_accepted n link_init ins = [b; 255 - b] /\ link_delivered n link_init ins = [b; 255 - b]).
+Proof. exact (conj link_one_bounded link_two_bounded). Qed.
+
 (* ---- "for all receiver ready/valid timings" is FALSE (known finding C17-consumer-stall): two frames are shown, the consumer is
    not ready until after the second; only the second byte is ever transferred *)
 Theorem des_all_pacings_refuted :
@@ -63,8 +95,40 @@ Theorem link_all_pacings_refuted :
     link_accepted n link_init ins = [85; 163] /\ link_delivered n link_init ins = [163].
 Proof. exact (ex_intro _ 2 (ex_intro _ stall_stimulus (conj (Z.le_refl 2) link_stall_witness))). Qed.
 
+(* ---- non-vacuity: concrete instances satisfying the hypotheses *)
+Example ser_frame_instance :
+  let gaps := [1; 3; 0; 2; 3; 3; 1; 3; 3; 3; 2]%nat in
+  let ins := map (fun p => {| si_valid := 1; si_v := 7; si_pulse := p |}) (pulses gaps) in
+  let i0 := {| si_valid := 1; si_v := 165; si_pulse := 0 |} in
+  length gaps = 11%nat /\ si_valid i0 <> 0 /\ map si_pulse ins = pulses gaps /\
+  map s_tx (runs ser_step (ser_ready_state 3 9) (i0 :: ins ++ [i0])) =
+    [1; 1;1; 0;0;0;0; 1; 0;0;0; 1;1;1;1; 0;0;0;0; 0;0; 1;1;1;1; 0;0;0;0; 1;1;1;1; 1;1;1; 1].
+Proof. vm_compute. repeat split; discriminate. Qed.
+
+Example des_frame_instance :
+  let pre := concat (map show_level (frame_head 163)) in
+  let ic := {| di_rx := 1; di_ready := 0; di_sample := 1 |} in
+  des_idle des_init /\ presents di_rx di_sample (frame_head 163) pre /\ di_sample ic = 1 /\ (nhigh di_sample (consumer_ready 3) <= 9)%nat /\
+  des_transfers des_init (pre ++ ic :: consumer_ready 3) = [163].
+Proof. repeat split; try apply shown_levels; vm_compute; try reflexivity. lia. Qed.
+
+Example sw_receiver_instance :
+  let ins := map (fun p => {| si_valid := 0; si_v := 0; si_pulse := p |}) (pulses (2 :: repeat 3 10)%nat) in
+  let i0 := {| si_valid := 1; si_v := 90; si_pulse := 0 |} in
+  sw_rx 4 (map s_tx (runs ser_step (ser_ready_state 0 0) (i0 :: ins ++ [i0]))) = Some 90.
+Proof. vm_compute. reflexivity. Qed.
+
+Example recovery_phase_instance :
+  let c := cgr_step 3 cgr_init 1 0 in                               (* one clock with the line high *)
+  cgr_bits 3 c /\ g_fsm c = mkfsm 0 /\ g_active c = 0 /\ g_zrx c = 1 /\
+  map cgr_sample (runs (fun c rx => cgr_step 3 c rx 0) (cgr_step 3 c 0 0) [0; 0; 1; 1; 0; 1; 0; 0; 1; 1]) = [0; 0; 1; 0; 0; 0; 0; 0; 1; 0].
+Proof. vm_compute. unfold isbit. repeat split; auto; discriminate. Qed.
+
 Print Assumptions ser_frame.
 Print Assumptions des_frame.
 Print Assumptions sw_receiver_8n1.
+Print Assumptions tx_pulse_train.
+Print Assumptions recovery_phase.
+Print Assumptions link_delivers_partial.
 Print Assumptions des_all_pacings_refuted.
 Print Assumptions link_all_pacings_refuted.
